@@ -1445,7 +1445,8 @@ static int _handle_sm(xmpp_conn_t *const conn,
         _stream_negotiation_success(conn);
     } else if (strcmp(name, "resumed") == 0) {
         previd = xmpp_stanza_get_attribute(stanza, "previd");
-        if (!previd || strcmp(previd, conn->sm_state->previd)) {
+        if (!previd || !conn->sm_state->previd ||
+            strcmp(previd, conn->sm_state->previd)) {
             strophe_error(conn->ctx, "xmpp",
                           "SM error: previd didn't match, ours is \"%s\".",
                           conn->sm_state->previd);
